@@ -111,3 +111,26 @@ def session_store(prog: Prog):
         if isinstance(n, ast.Subscript) and isinstance(n.ctx, ast.Store) and is_self_attr(n.value):
             return reg, n.value.attr
     raise AnalysisError("register_session_metadata does not store into a map held by the provider")
+
+
+_import_cache: dict = {}
+
+
+def import_rules(ctx: Ctx, pid: str, mapping: dict[str, str]) -> None:
+    """Clauses shared between properties: run property `pid`'s rules on the same program and take over the obligations of the rules in
+    `mapping` (their rule id -> the id under which this property reports them).  Results are cached per program, so chains of imports
+    are computed once."""
+    import importlib
+    from dataclasses import replace
+
+    key = (id(ctx.prog), pid)
+    if key not in _import_cache:
+        mod = importlib.import_module(f"sa.rules.{pid.lower()}")
+        sub = Ctx(pid, ctx.tier, ctx.prog, ctx.repo)
+        mod.rules(sub)
+        _import_cache[key] = (sub.obligations, set(sub.analysed_functions))
+    obs, touched = _import_cache[key]
+    for o in obs:
+        if o.rule in mapping:
+            ctx.obligations.append(replace(o, rule=mapping[o.rule]))
+    ctx.analysed_functions |= touched
